@@ -303,14 +303,6 @@ long Ranges::max() const {
 }
 
 
-bool predIncRangeDone(long val, long end) {
-    return val <= end;
-}
-
-bool predDecRangeDone(long val, long end) {
-    return val >= end;
-}
-
 void Ranges::appendUnique(long start, long end, long step) {
     if (step == 0) {
         // Invalid step. Do nothing.
@@ -322,21 +314,16 @@ void Ranges::appendUnique(long start, long end, long step) {
     long last = start;
     size_t pending = 0; // Track unique value count
 
-    // Handle loop test for both increasing
-    // and decreasing ranges
-    bool (*pred) (long, long);
-
+    // Handle both increasing and decreasing ranges
     if (start <= end) {
         if (step < 0) {
             step *= -1;
         }
-        pred = &predIncRangeDone;
 
     } else {
         if (step > 0) {
             step *= -1;
         }
-        pred = &predDecRangeDone;
     }
 
     // Short-circuit if this is the first range being added
@@ -350,7 +337,12 @@ void Ranges::appendUnique(long start, long end, long step) {
     // 1-100x1 and we are appending 50-150x1. Should be easy
     // enough to just know we can Append(101,150,1)
 
-    for ( ; pred(subEnd, end); subEnd += step ) {
+    // Stop on the last value of the range itself: stepping past
+    // it can overflow, and the loop would then never end
+    const long stop = Range(start, end, step).end();
+
+    for ( bool done = false; !done; subEnd += step ) {
+        done = (subEnd == stop);
 
         if (!contains(subEnd)) {
             // Is a unique value in the range
